@@ -48,7 +48,9 @@ func c11Contexts() []c11Ctx {
 		{"max_by(x, &□)", func(h *gen.Expr) *gen.Expr { return gen.Func("max_by", x(), gen.ExpRef(h)) }},
 		{"min_by(x, &□)", func(h *gen.Expr) *gen.Expr { return gen.Func("min_by", x(), gen.ExpRef(h)) }},
 		{"a.[□]", func(h *gen.Expr) *gen.Expr { return gen.Chain(a(), gen.StMultiList(h)) }},
-		{"{k: □, k: a}", func(h *gen.Expr) *gen.Expr { return gen.MultiHash([]gen.Key{{Name: "k"}, {Name: "k"}}, []*gen.Expr{h, a()}) }},
+		{"{k: □, k: a}", func(h *gen.Expr) *gen.Expr {
+			return gen.MultiHash([]gen.Key{{Name: "k"}, {Name: "k"}}, []*gen.Expr{h, a()})
+		}},
 		{"{k: a, \"k\": □, j: a}", func(h *gen.Expr) *gen.Expr {
 			return gen.MultiHash([]gen.Key{{Name: "k"}, {Name: "k", Quoted: true}, {Name: "j"}}, []*gen.Expr{a(), h, a()})
 		}},
